@@ -17,6 +17,8 @@ Init == path \in Paths /\ arrived = <<>> /\ vec = <<>> /\ idx = {} /\ phase = "i
 Arrive(x) == /\ arrived' = Append(arrived, x)
              /\ IF x \in idx THEN UNCHANGED <<vec, idx>> ELSE vec' = Append(vec, x) /\ idx' = idx \cup {x}
 \* constructor list (decoded from CBOR / JSON; the "new" path has an empty list)
+\* "cbor_decoded_adds": the list is decoded from CBOR and the elements that arrive through add() were themselves DECODED from their
+\* legacy encoding (nested sets without tag 258) - the same element whatever encoding detail its value remembers
 InitElem == /\ phase = "init" /\ path # "new" /\ Len(arrived) < MaxInit
             /\ \E x \in Elems : Arrive(x)
             /\ UNCHANGED <<path, phase>>
